@@ -146,7 +146,7 @@ func (b *httpBackend) close()                       { b.srv.Close() }
 
 var (
 	rdCASOps = []string{"bs-read", "bs-read-zstd", "batch-read", "batch-read-zstd", "http-get", "http-get-zstd", "http-head",
-		"findmissing", "findmissing-batch", "qws", "fetch-sri"}
+		"findmissing", "findmissing-batch", "findmissing-nosize", "findmissing-batch-nosize", "qws", "fetch-sri"}
 	rdACOps  = []string{"ac-get-grpc", "ac-get-http", "ac-head-http", "raw-get-http", "raw-head-http"}
 	rdDepOps = []string{"dep-file", "dep-stdout", "dep-stderr", "dep-tree", "dep-treefile", "dep-file-many", "dep-file-http", "dep-file-head"}
 )
@@ -269,11 +269,23 @@ func execRead(r *lib.Run, e *proxyEnv, cs rdCase) rdResult {
 			h := t.httpDo("HEAD", t.casURL()+"/cas/"+d.Hash, nil, nil)
 			res.status = fmt.Sprintf("HEAD /cas HTTP %d err=%v", h.Status, h.Err)
 			res.reported = h.Status == 200
-		case "findmissing":
-			miss, err := cl.FindMissing(ctx, d)
-			res.status = fmt.Sprintf("FindMissingBlobs %s missing=%d", lib.Code(err), len(miss))
+		case "findmissing", "findmissing-nosize":
+			q := d
+			if cs.Op == "findmissing-nosize" {
+				// an existence check that does not state the size (size_bytes = -1, which the
+				// server tolerates): judged like HEAD /cas, i.e. when the backend reports the size
+				q = &pb.Digest{Hash: d.Hash, SizeBytes: -1}
+				res.judged = e.b.reportsSize("cas")
+			}
+			miss, err := cl.FindMissing(ctx, q)
+			res.status = fmt.Sprintf("FindMissingBlobs(%s,%d) %s missing=%d", q.Hash[:8], q.SizeBytes, lib.Code(err), len(miss))
 			res.reported = err == nil && len(miss) == 0
-		case "findmissing-batch":
+		case "findmissing-batch", "findmissing-batch-nosize":
+			q := d
+			if cs.Op == "findmissing-batch-nosize" {
+				q = &pb.Digest{Hash: d.Hash, SizeBytes: -1}
+				res.judged = e.b.reportsSize("cas")
+			}
 			var ds []*pb.Digest
 			for i := 0; i < 14; i++ {
 				ds = append(ds, e.locals[rng.IntN(len(e.locals))])
@@ -282,7 +294,7 @@ func execRead(r *lib.Run, e *proxyEnv, cs rdCase) rdResult {
 				ds = append(ds, &pb.Digest{Hash: lib.RandHash(rng), SizeBytes: 1 + int64(rng.IntN(50))})
 			}
 			pos := rng.IntN(len(ds) + 1)
-			ds = append(ds[:pos], append([]*pb.Digest{d}, ds[pos:]...)...)
+			ds = append(ds[:pos], append([]*pb.Digest{q}, ds[pos:]...)...)
 			miss, err := cl.FindMissing(ctx, ds...)
 			listed := false
 			for _, m := range miss {
@@ -290,7 +302,7 @@ func execRead(r *lib.Run, e *proxyEnv, cs rdCase) rdResult {
 					listed = true
 				}
 			}
-			res.status = fmt.Sprintf("FindMissingBlobs(30 digests, object at %d) %s missing=%d object listed=%v", pos, lib.Code(err), len(miss), listed)
+			res.status = fmt.Sprintf("FindMissingBlobs(30 digests, object at %d with size_bytes %d) %s missing=%d object listed=%v", pos, q.SizeBytes, lib.Code(err), len(miss), listed)
 			res.reported = err == nil && !listed
 		case "qws":
 			resp, err := cl.BS.QueryWriteStatus(ctx, &bs.QueryWriteStatusRequest{ResourceName: lib.ResUpload(uuidOf(rng), d.Hash, d.SizeBytes)})
